@@ -3107,3 +3107,186 @@ fn inherit_replay() {
         .unwrap();
     }
 }
+
+// ------------------------------------------------------------------------------------------------
+// C11 driver glue: behaviours of spec/Deferral/Deferral.tla on the real glue - Global.selection_deferral,
+// PeerSession::process_effects (GrSessionEstablished / GrEorReceived), the tail of PeerSession::run (PeerWithdrawn),
+// gr_selection_deferral_timer_expired, process_restarting_outputs and the tables' deferral flags - with routes arriving
+// meanwhile and a subscriber counting how often each prefix is announced.
+//
+// Input (.dgl.in): "seq <id> <peer>=<fams|-> ..." then  est <p> <fams|-> | eor <p> <f> | withdrawn <p> | timer | route <f> <x>
+// Output: per step {"st","pending","timer","restarting","ann":{f:{x:n}}}
+// ------------------------------------------------------------------------------------------------
+fn dg_addr(p: &str) -> Ipv4Addr {
+    Ipv4Addr::new(127, 0, 3, p.as_bytes()[0] - b'A' + 1)
+}
+
+fn dg_prefix(f: Family, x: &str) -> packet::Nlri {
+    let n: u8 = x[1..].parse().unwrap();
+    if f == Family::IPV6 {
+        packet::Nlri::V6(bgp::Ipv6Net { addr: std::net::Ipv6Addr::new(0x2001, 0xdb8, n as u16, 0, 0, 0, 0, 0), mask: 48 })
+    } else if f == Family::IPV4_VPN {
+        packet::Nlri::VpnV4(packet::vpn::VpnV4Nlri {
+            labels: packet::mpls::MplsLabelStack::new(vec![packet::mpls::MplsLabel::new(100)]),
+            rd: packet::rd::RouteDistinguisher::TwoOctetAs { admin: 65001, assigned: 1 },
+            prefix: bgp::Ipv4Net { addr: Ipv4Addr::new(10, 50, n, 0), mask: 24 },
+        })
+    } else {
+        packet::Nlri::V4(bgp::Ipv4Net { addr: Ipv4Addr::new(10, 40, n, 0), mask: 24 })
+    }
+}
+
+#[tokio::test]
+async fn deferral_glue_replay() {
+    let Ok(inp) = std::env::var("VERIF_IN") else {
+        return;
+    };
+    if !inp.ends_with(".dgl.in") {
+        return;
+    }
+    let outp = std::env::var("VERIF_OUT").expect("VERIF_OUT");
+    let text = std::fs::read_to_string(&inp).expect("read VERIF_IN");
+    let mut out = std::io::BufWriter::new(std::fs::File::create(&outp).expect("create VERIF_OUT"));
+    struct W {
+        global: GlobalHandle,
+        tables: TableHandle,
+        peers: Vec<(String, IpAddr)>,
+        sub: crate::table_manager::Subscription,
+        ann: std::collections::BTreeMap<(String, String), u32>,
+        names: std::collections::BTreeMap<String, (String, String)>,
+        src: Arc<table::Source>,
+    }
+    let mut w: Option<W> = None;
+    let mut sid = String::new();
+    let mut step = 0usize;
+    for line in text.lines() {
+        let t: Vec<&str> = line.split_whitespace().collect();
+        if t.is_empty() {
+            continue;
+        }
+        if t[0] == "seq" {
+            sid = t[1].to_string();
+            step = 0;
+            let global = mk_global();
+            let tables: TableHandle = Arc::new(TableManager::new(2));
+            let mut peers = Vec::new();
+            let mut cfg: FnvHashMap<IpAddr, Vec<Family>> = FnvHashMap::default();
+            for kv in &t[2..] {
+                let (p, f) = kv.split_once('=').unwrap();
+                let addr = IpAddr::V4(dg_addr(p));
+                peers.push((p.to_string(), addr));
+                cfg.insert(addr, crate::gr::verif_harness::fams(f));
+                let mut prm = base_params(addr);
+                prm.families.insert(Family::IPV4, 0);
+                global.write().await.add_peer(prm, None).unwrap();
+            }
+            // exactly what start-up does with the configured GR peers (event/mod.rs, serve)
+            let (deferral, init_outputs) = crate::gr::RestartingDeferral::new(cfg, Some(Duration::from_secs(36000)));
+            if !deferral.is_completed() {
+                for o in &init_outputs {
+                    if let crate::gr::RestartingOutput::DeferFamilies(families) = o {
+                        tables.start_deferral_families(families);
+                    }
+                }
+                global.write().await.selection_deferral = Some(deferral);
+            }
+            let sub = tables.subscribe(false);
+            let src = Arc::new(table::Source::new(
+                IpAddr::V4(Ipv4Addr::new(127, 0, 3, 99)),
+                IpAddr::V4(Ipv4Addr::new(127, 0, 3, 254)),
+                65099,
+                65001,
+                Ipv4Addr::new(9, 9, 9, 9),
+                table::PeerRole::Ebgp,
+            ));
+            w = Some(W { global, tables, peers, sub, ann: Default::default(), names: Default::default(), src });
+            continue;
+        }
+        step += 1;
+        let x = w.as_mut().unwrap();
+        let mut note = String::new();
+        match t[0] {
+            "est" | "eor" => {
+                let addr = IpAddr::V4(dg_addr(t[1]));
+                let ctx = Arc::clone(&x.global.read().await.peers.get(&addr).unwrap().context);
+                let mut sess = PeerSession::new_for_test(addr, ctx, x.tables.clone());
+                let eff = if t[0] == "est" {
+                    let fams = crate::gr::verif_harness::fams(t[2]);
+                    GlobalEffect::GrSessionEstablished {
+                        negotiated_gr: if fams.is_empty() { None } else { Some(NegotiatedGr { families: fams, restart_time: Duration::from_secs(120), notification_enabled: false }) },
+                    }
+                } else {
+                    GlobalEffect::GrEorReceived { family: crate::gr::verif_harness::fam(t[2]) }
+                };
+                let g = x.global.clone();
+                sess.process_effects(vec![eff], &g).await;
+            }
+            "withdrawn" => {
+                // a real connection of that peer that ends before anything is exchanged: the tail of PeerSession::run
+                let (client, server) = pair_from(dg_addr(t[1])).await;
+                match accept_connection(&x.global, &x.tables, server, crate::fsm::Role::Passive).await {
+                    Some(s) => {
+                        drop(client);
+                        let (atx, _arx) = mpsc::unbounded_channel();
+                        if tokio::time::timeout(Duration::from_millis(WAIT_MS), s.run(x.global.clone(), atx)).await.is_err() {
+                            note.push_str("session did not end;");
+                        }
+                    }
+                    None => note.push_str("accept_connection refused;"),
+                }
+            }
+            "timer" => {
+                gr_selection_deferral_timer_expired(x.global.clone(), x.tables.clone()).await;
+            }
+            "route" => {
+                let f = crate::gr::verif_harness::fam(t[1]);
+                let net = dg_prefix(f, t[2]);
+                x.names.insert(net.to_string(), (t[1].to_string(), t[2].to_string()));
+                let nh = if f == Family::IPV6 { bgp::Nexthop::V6("2001:db8::9".parse().unwrap()) } else { bgp::Nexthop::V4(Ipv4Addr::new(127, 0, 3, 99)) };
+                // a fresh attribute set each time, so that a repeated announcement is a change
+                let attrs = Arc::new(vec![
+                    packet::Attribute::new_with_value(packet::Attribute::ORIGIN, 0).unwrap(),
+                    packet::Attribute::new_with_bin(packet::Attribute::AS_PATH, vec![2, 1, 0, 0, 0xfe, 0x4b]).unwrap(),
+                    packet::Attribute::new_with_value(packet::Attribute::MULTI_EXIT_DESC, step as u32).unwrap(),
+                ]);
+                x.tables.insert_route(x.src.clone(), f, packet::PathNlri { path_id: 0, nlri: net }, Some(nh), attrs, None, 0);
+            }
+            o => panic!("harness: op {o}"),
+        }
+        settle().await;
+        // count Loc-RIB announcements per prefix
+        while let Ok(ev) = x.sub.rx.try_recv() {
+            if let crate::table_manager::BgpEvent::LocRib(c) = ev {
+                if c.attr.is_some() {
+                    if let Some(k) = x.names.get(&c.net.to_string()) {
+                        *x.ann.entry(k.clone()).or_insert(0) += 1;
+                    }
+                }
+            }
+        }
+        let (proj, timer, restarting) = {
+            let g = x.global.read().await;
+            let timer = g.selection_deferral_timer.as_ref().is_some_and(|h| !h.is_finished());
+            match &g.selection_deferral {
+                Some(d) => (crate::gr::verif_harness::proj_deferral_named(d, &x.peers), timer, true),
+                None => {
+                    let parts: Vec<String> = x.peers.iter().map(|(n, _)| format!("\"{}\":[]", n)).collect();
+                    (format!("{{\"st\":\"Completed\",\"pending\":{{{}}}}}", parts.join(",")), timer, false)
+                }
+            }
+        };
+        let ann: Vec<String> = x.ann.iter().map(|((f, p), n)| format!("\"{}/{}\":{}", f, p, n)).collect();
+        writeln!(
+            out,
+            "{{\"seq\":\"{}\",\"step\":{},\"machine\":{},\"timer\":{},\"restarting\":{},\"ann\":{{{}}},\"note\":\"{}\"}}",
+            sid,
+            step,
+            proj,
+            timer,
+            restarting,
+            ann.join(","),
+            note
+        )
+        .unwrap();
+    }
+}
